@@ -57,6 +57,26 @@ CLAIMED = {
                 "the statement names. Decimals are outside.",
         "design_ref": "DESIGN.md §3 C04",
     },
+    "C05": {
+        "text": "The vocabulary is a finite table (read from the data files with ast each run, ~7,700 single-meaning "
+                "month/weekday names of 205 languages and their regional overlays): ENUMERATED. Per name the public entry "
+                "get_date_data is executed on 'D <name> YYYY' with the day (1-28, both widths) and the year (1000-9999) "
+                "symbolic, and on '<weekday name>' with the reference instant symbolic (day of month 8-24): z3 shows per "
+                "path that exactly that day/month/year, resp. the most recent such weekday within the last seven days, "
+                "comes back. Also: a base language after its regional overlay was loaded first. Quick tier: seed-rotated "
+                "language slice + every name whose accent-stripped form collides with another word + known-finding names; "
+                "thorough: everything, NORMALIZE on and off. One open known finding lists 27 (locale, name) pairs.",
+        "design_ref": "DESIGN.md §3 C05",
+    },
+    "C06": {
+        "text": "Finite table (~3,400 fixed relative phrases, ~3,200 counted patterns that are literal text around one number "
+                "group): ENUMERATED. Per item ONE symbolic path runs the public entry twice - the language's phrase and the "
+                "English canonical expression - under the same symbolic reference instant (years 1-9999 incl. µs) and the "
+                "same symbolic count (1-3 digits); z3 shows both results are None or field-wise equal. Quick tier: rotated "
+                "slice + accent-collision phrases + phrases with punctuation + known-finding phrases; thorough: everything. "
+                "One open known finding lists 25 phrases/patterns. Decimals are outside.",
+        "design_ref": "DESIGN.md §3 C06",
+    },
     "C07": {
         "text": "Public entry get_date_data for numeric three-field dates (4-digit zero-padded year) rendered in each of "
                 "the 6 orders with separators '-', '/', '.', ' ' (optional HH:MM): with every valid (y,m,d) for years "
